@@ -290,3 +290,12 @@ Proof. exact (stdout_autoflush_delivers writer_shapes (stdout_shapes OPrinter) e
 Example C17_stdout_bare_close_leaves_pending :
   o_pending (fst (o_run writer_shapes (stdout_shapes OLine) o_init [Write (c17_rec 0); Close])) = [c17_rec 0].
 Proof. reflexivity. Qed.
+
+(* ---------------------------------------------------------------------------------------------------- *)
+(* 7. writers constructed on a CALLER-SUPPLIED file object (RecordStreamWriter(fp), RecordOutput(fp), RecordPrinter(fp),
+   the adapters' writer classes given a file object) while the caller keeps its reference.  given_fp_table (GENERATED:
+   observed on plain files, gzip.GzipFile and a large BufferedWriter) says for each class whether close() closes that
+   object and whether the content on disk is complete after close().  It is complete for every one of them; the check
+   runs histories of write / flush / close on each against the same state machines (stream / plain / avro). *)
+Theorem C17_generated_given_fp : forallb (fun e => snd (snd e)) given_fp_table = true.
+Proof. reflexivity. Qed.
